@@ -40,3 +40,30 @@ package search
 //@   site call series.AddEntry #1:
 //@     assert [only-samples-inside-the-window-are-kept] timeRange.StartEpochSec <= arg1 && arg1 <= timeRange.EndEpochSec
 //@ end
+
+// C02 (A OR B is the union, A AND B the intersection, NOT A the complement): a
+// nested (parenthesised) sub-expression is searched on its own and its
+// per-block result is then folded into the running result of the enclosing
+// condition, block by block.  EVERY block of the nested result is folded in —
+// also a block where the nested expression matched nothing: the running result
+// starts as "all records" and the first OR operand replaces it, so skipping an
+// empty operand leaves all records selected.  Ghost mergedBlk(b): block b was
+// handed to updateMatchedRecords.
+// folds one block's nested match set into the running one: writes that block's
+// status and its bitset only (frame ASSUMED; the bitset operations are external)
+//@ func (*SegmentSearchStatus).updateMatchedRecords
+//@   assumed
+//@   modifies fieldsof(BlockSearchStatus), allbytes
+//@ end
+//@ ghostdecl mergedBlk int
+//@ func mergeSegmentSearchStatus
+//@   props C02
+//@   assumecalleerequires
+//@   ghostinit forallkey(b, uint16, ghostat(0, int(b), "mergedBlk") == 0)
+//@   loop 1:
+//@     invariant [visited-blocks-were-merged] forallkey(b, uint16, implies(visited(1, b), ghostat(0, int(b), "mergedBlk") == 1))
+//@   site call baseSearch.updateMatchedRecords #1:
+//@     assert [merged-with-the-conditions-own-operator] arg3 == op
+//@     ghostset ghostat(0, int(arg1), "mergedBlk") = 1
+//@   ensures [every-block-of-the-nested-result-is-merged] implies(searchToMerge != nil, forallkey(b, uint16, implies(old(haskey(searchToMerge.AllBlockStatus, b)), ghostat(0, int(b), "mergedBlk") == 1)))
+//@ end
